@@ -1,5 +1,7 @@
 import PqlModel.Props.C05
 import PqlModel.Props.C02Split
+import PqlModel.Props.C05SplitRefines
+import PqlModel.Props.C05LexStatement
 #print axioms Pql.C05.C05_ends_with_semicolon
 #print axioms Pql.C05.C05_subqueryName_injective
 #print axioms Pql.C05.C05_chain_names_by_index
@@ -9,3 +11,37 @@ import PqlModel.Props.C02Split
 #print axioms Pql.C05.C05_chain_reads_previous
 #print axioms Pql.C05.C05_length_grows_ops
 #print axioms Pql.C05.C05_length_grows
+#print axioms Pql.C05.C05_split_refines
+#print axioms Pql.C05.C05_split_ok_writable
+#print axioms Pql.C05.C05_split_refines_conv
+#print axioms Pql.C05.C05_split_fails_iff
+#print axioms Pql.C05.C05_split_fails_iff_top
+#print axioms Pql.C05.C05_split_names
+#print axioms Pql.C05.C05_split_length
+#print axioms Pql.C05.C05_reads_earlier
+#print axioms Pql.C05.C05_reads_earlier_partial
+#print axioms Pql.C05.C05_reads_earlier_counterexample
+#print axioms Pql.C05.C05_reads_earlier_model
+#print axioms Pql.C05.C05_splitA_block_structure
+#print axioms Pql.C05.C05_splitA_names_by_index
+#print axioms Pql.C05.C05_splitA_generated_names_distinct
+#print axioms Pql.C05.C05_splitA_chain_reads_previous
+#print axioms Pql.C05.C05_conv_needs_writable
+#print axioms Pql.C05.C05_lexRender_statement
+#print axioms Pql.C05.C05_lexRender_program
+#print axioms Pql.C05.C05_lexRender_from_scope
+#print axioms Pql.C05.C05_lexRender_compile
+#print axioms Pql.C05.C05_subquery_adj
+#print axioms Pql.C05.C05_subquery_lexRender_before
+#print axioms Pql.C05.C05_statement_adj
+#print axioms Pql.C05.C05_no_comment_or_unterminated
+#print axioms Pql.C05.C05_single_semicolon
+#print axioms Pql.C05.C05_single_semicolon_program
+#print axioms Pql.C05.C05_single_semicolon_lexed
+#print axioms Pql.C05.C05_lexOK_needed
+#print axioms Pql.C05.write_good
+#print axioms Pql.C05.writeCtes_adj
+#print axioms Pql.C05.splitQueries_subOK
+#print axioms Pql.C05.writeExpr_good_scope
+#print axioms Pql.C05.program_sf
+#print axioms Pql.C05.scopeAdj_literals
